@@ -52,6 +52,13 @@ theorem c19k_sigma_modEq (k g : Nat) (hg : g % 2 = 1) (q : Int) (a b : Array Int
   | true => simpa using (h i hi).neg
   | false => simpa using h i hi
 
+/-- σ_g of coefficient-wise equal arrays -/
+theorem c19k_sigma_congr (k g : Nat) (hg : g % 2 = 1) (a b : Array Int)
+    (h : ∀ i, i < 2^k → a.getD i 0 = b.getD i 0) (c : Nat) (hc : c < 2^k) :
+    (sigmaPoly (2^k) a g).getD c 0 = (sigmaPoly (2^k) b g).getD c 0 := by
+  obtain ⟨i, hi, neg, hperm⟩ := c19k_sigmaPoly_perm (R := Int) k g hg c hc
+  rw [hperm a, hperm b, h i hi]
+
 /-- σ_g preserves the ∞-norm -/
 theorem c19k_sigma_abs (k g : Nat) (hg : g % 2 = 1) (a : Array Int) (B : Nat)
     (h : ∀ i, i < 2^k → (a.getD i 0).natAbs ≤ B) (c : Nat) (hc : c < 2^k) :
@@ -110,6 +117,10 @@ theorem c19k_accNoise_succ_getD (k : Nat) (ν : Nat → Array Int) (m c : Nat) (
       (c19k_accNoise k ν m).getD c 0 + (sigmaPoly (2^k) (c19k_accNoise k ν m) (2^(k-m)+1)).getD c 0 + (ν m).getD c 0 := by
   show (addPoly (2^k) (addPoly (2^k) _ _) _).getD c 0 = _
   rw [c19_addPoly_getD _ _ _ _ hc, c19_addPoly_getD _ _ _ _ hc]
+
+theorem c19k_odd_two_pow (m : Nat) (h : 1 ≤ m) : (2^m + 1) % 2 = 1 := by
+  obtain ⟨d, hd⟩ : ∃ d, m = d + 1 := ⟨m - 1, by omega⟩
+  rw [hd, pow_succ]; omega
 
 theorem c19k_odd_elt (k m : Nat) (h : m + 1 ≤ k) : (2^(k-m)+1) % 2 = 1 := by
   obtain ⟨d, hd⟩ : ∃ d, k - m = d + 1 := ⟨k - m - 1, by omega⟩
@@ -587,6 +598,626 @@ theorem c19k_traceSteps_bgv {kl : KeyLevel} {l : Level} (hl : c04k_LevelOf kl l)
   · exact c19k_accNoise_dvd l.k νs _ m hm (fun i hi c hc => by
       obtain ⟨cti, _, key, _, _, _, b5⟩ := h5 i hi
       exact b5 (het i hi) c hc)
+
+/-! ## L2: the noisy merge tree of PackLWEs, pure algebra over ℤ -/
+
+/-- every output coefficient of the monomial shift is ± one input coefficient, position and sign independent of the input -/
+theorem c19k_shiftPoly_perm (n s : Nat) (c : Nat) (hc : c < n) :
+    ∃ i, i < n ∧ ∃ neg : Bool, ∀ a : Array Int,
+      (shiftPoly n a s).getD c 0 = if neg then - a.getD i 0 else a.getD i 0 := by
+  have hr : s % n < n := Nat.mod_lt _ (by omega)
+  by_cases hle : s % n ≤ c
+  · refine ⟨c - s % n, by omega, decide ((s / n) % 2 = 1), fun a => ?_⟩
+    rw [c19_shiftPoly_getD _ _ _ _ hc, if_pos hle]
+    by_cases h : (s / n) % 2 = 1 <;> simp [h]
+  · refine ⟨c + n - s % n, by omega, decide (¬ (s / n) % 2 = 1), fun a => ?_⟩
+    rw [c19_shiftPoly_getD _ _ _ _ hc, if_neg hle]
+    by_cases h : (s / n) % 2 = 1 <;> simp [h]
+
+theorem c19k_shift_modEq (n s : Nat) (q : Int) (a b : Array Int)
+    (h : ∀ i, i < n → a.getD i 0 ≡ b.getD i 0 [ZMOD q]) (c : Nat) (hc : c < n) :
+    (shiftPoly n a s).getD c 0 ≡ (shiftPoly n b s).getD c 0 [ZMOD q] := by
+  obtain ⟨i, hi, neg, hperm⟩ := c19k_shiftPoly_perm n s c hc
+  rw [hperm a, hperm b]
+  cases neg with
+  | true => simpa using (h i hi).neg
+  | false => simpa using h i hi
+
+theorem c19k_shift_add (n s : Nat) (a b : Array Int) (c : Nat) (hc : c < n) :
+    (shiftPoly n (addPoly n a b) s).getD c 0 = (shiftPoly n a s).getD c 0 + (shiftPoly n b s).getD c 0 := by
+  obtain ⟨i, hi, neg, hperm⟩ := c19k_shiftPoly_perm n s c hc
+  rw [hperm, hperm a, hperm b, c19_addPoly_getD _ _ _ _ hi]
+  cases neg with
+  | true => simp; ring
+  | false => simp
+
+/-- the butterfly respects coefficient-wise congruence -/
+theorem c19k_packMerge_modEq (k lam : Nat) (q : Int) (E O E' O' : Array Int)
+    (hE : ∀ i, i < 2^k → E.getD i 0 ≡ E'.getD i 0 [ZMOD q]) (hO : ∀ i, i < 2^k → O.getD i 0 ≡ O'.getD i 0 [ZMOD q])
+    (c : Nat) (hc : c < 2^k) :
+    (packMerge k lam E O).getD c 0 ≡ (packMerge k lam E' O').getD c 0 [ZMOD q] := by
+  unfold packMerge
+  simp only
+  have hsh := c19k_shift_modEq (2^k) (2^k / 2^(lam+1)) q O O' hO
+  rw [c19_addPoly_getD _ _ _ _ hc, c19_addPoly_getD _ _ _ _ hc, c19_addPoly_getD _ _ _ _ hc, c19_addPoly_getD _ _ _ _ hc]
+  refine ((hE c hc).add (hsh c hc)).add ?_
+  refine c19k_sigma_modEq k _ (c19k_odd_two_pow (lam+1) (by omega)) q _ _ (fun i hi => ?_) c hc
+  rw [c19_subPoly_getD _ _ _ _ hi, c19_subPoly_getD _ _ _ _ hi]
+  exact (hE i hi).sub (hsh i hi)
+
+/-- the butterfly is additive -/
+theorem c19k_packMerge_add (k lam : Nat) (E O Z Z' : Array Int) (c : Nat) (hc : c < 2^k) :
+    (packMerge k lam (addPoly (2^k) E Z) (addPoly (2^k) O Z')).getD c 0 =
+      (packMerge k lam E O).getD c 0 + (packMerge k lam Z Z').getD c 0 := by
+  have hodd := c19k_odd_two_pow (lam+1) (by omega)
+  unfold packMerge
+  simp only
+  rw [c19_addPoly_getD _ _ _ _ hc, c19_addPoly_getD _ _ _ _ hc, c19_addPoly_getD _ _ _ _ hc, c19_addPoly_getD _ _ _ _ hc,
+    c19_addPoly_getD _ _ _ _ hc, c19_addPoly_getD _ _ _ _ hc, c19_addPoly_getD _ _ _ _ hc, c19k_shift_add _ _ _ _ _ hc]
+  have hs : (sigmaPoly (2^k) (subPoly (2^k) (addPoly (2^k) E Z) (shiftPoly (2^k) (addPoly (2^k) O Z') (2^k / 2^(lam+1))))
+        (2^(lam+1) + 1)).getD c 0
+      = (sigmaPoly (2^k) (addPoly (2^k) (subPoly (2^k) E (shiftPoly (2^k) O (2^k / 2^(lam+1))))
+          (subPoly (2^k) Z (shiftPoly (2^k) Z' (2^k / 2^(lam+1))))) (2^(lam+1) + 1)).getD c 0 := by
+    refine c19k_sigma_congr k (2^(lam+1)+1) hodd _ _ (fun i hi => ?_) c hc
+    rw [c19_subPoly_getD _ _ _ _ hi, c19_addPoly_getD _ _ _ _ hi, c19_addPoly_getD _ _ _ _ hi,
+      c19_subPoly_getD _ _ _ _ hi, c19_subPoly_getD _ _ _ _ hi, c19k_shift_add _ _ _ _ _ hi]
+    ring
+  rw [hs, c19k_sigma_add k _ hodd _ _ c hc]
+  ring
+
+
+/-- the merge tree of `pack_lwe_ciphertexts` as a recursion: slot `o` (a multiple of 2^lam) after `lam` layers.  It is the
+    in-place loop `packLayer` of Model/Lwe.lean read at the slots later layers use (`c19k_node_eq_layers`). -/
+def c19k_nodePoly {α : Type} [Zero α] [Add α] [Sub α] [Neg α] [Mul α] (k : Nat) (leaves : Nat → Array α) : Nat → Nat → Array α
+  | 0, o => leaves o
+  | lam+1, o => packMerge k lam (c19k_nodePoly k leaves lam o) (c19k_nodePoly k leaves lam (o + 2^lam))
+
+theorem c19k_node_eq_layers {R : Type} [CommRing R] (k l : Nat) (leaves : Array (Array R)) (lam : Nat) (hlam : lam ≤ l)
+    (o : Nat) (ho : o < 2^l) (hd : 2^lam ∣ o) :
+    (c19_packLayers k l lam leaves).getD o #[] = c19k_nodePoly k (fun i => leaves.getD i #[]) lam o := by
+  induction lam generalizing o with
+  | zero => rfl
+  | succ lam ih =>
+    have hmod : o % (2 * 2^lam) = 0 := by
+      rw [← pow_succ']; exact Nat.mod_eq_zero_of_dvd hd
+    have hd' : 2^lam ∣ o := Dvd.dvd.trans ⟨2, by rw [pow_succ]⟩ hd
+    have ho2 := c19_mult_add_lt l lam o hlam ho hd
+    have hd2 : 2^lam ∣ o + 2^lam := Dvd.dvd.add hd' (dvd_refl _)
+    rw [c19_packLayers_succ, c19_packLayer_even k l lam _ o ho hmod, ih (by omega) o ho hd',
+      ih (by omega) (o + 2^lam) ho2 hd2]
+    rfl
+
+/-- the noise of slot `o` after `lam` layers when the merge producing slot o of layer lam+1 contributes `ν lam o`:
+    Z_{0,o} = 0,  Z_{lam+1,o} = packMerge(Z_{lam,o}, Z_{lam,o+2^lam}) + ν_{lam,o}   (the butterfly is linear) -/
+def c19k_nodeNoise (k : Nat) (ν : Nat → Nat → Array Int) : Nat → Nat → Array Int
+  | 0, _ => Array.replicate (2^k) 0
+  | lam+1, o => addPoly (2^k) (packMerge k lam (c19k_nodeNoise k ν lam o) (c19k_nodeNoise k ν lam (o + 2^lam))) (ν lam o)
+
+/-- one butterfly on congruences -/
+theorem c19k_merge_step (k lam : Nat) (q : Int) (Xe Xo Ee Eo Ze Zo X' ν : Array Int)
+    (he : ∀ c, c < 2^k → Xe.getD c 0 ≡ Ee.getD c 0 + Ze.getD c 0 [ZMOD q])
+    (ho : ∀ c, c < 2^k → Xo.getD c 0 ≡ Eo.getD c 0 + Zo.getD c 0 [ZMOD q])
+    (h' : ∀ c, c < 2^k → X'.getD c 0 ≡ (packMerge k lam Xe Xo).getD c 0 + ν.getD c 0 [ZMOD q]) :
+    ∀ c, c < 2^k → X'.getD c 0 ≡ (packMerge k lam Ee Eo).getD c 0
+      + (addPoly (2^k) (packMerge k lam Ze Zo) ν).getD c 0 [ZMOD q] := by
+  intro c hc
+  have h1 := c19k_packMerge_modEq k lam q Xe Xo (addPoly (2^k) Ee Ze) (addPoly (2^k) Eo Zo)
+    (fun i hi => by rw [c19_addPoly_getD _ _ _ _ hi]; exact he i hi)
+    (fun i hi => by rw [c19_addPoly_getD _ _ _ _ hi]; exact ho i hi) c hc
+  rw [c19k_packMerge_add k lam Ee Eo Ze Zo c hc] at h1
+  have := (h' c hc).trans (h1.add (Int.ModEq.refl (n := q) (ν.getD c 0)))
+  rw [c19_addPoly_getD _ _ _ _ hc]
+  unfold Int.ModEq at this ⊢
+  rw [this]; congr 1; ring
+
+theorem c19k_nodeNoise_at (k : Nat) (ν : Nat → Nat → Array Int) (lam : Nat) (hlam : lam + 1 ≤ k) (o u : Nat) (hu : u < 2^(lam+1)) :
+    (c19k_nodeNoise k ν (lam+1) o).getD (2^(k-(lam+1)) * u) 0 =
+      (if u % 2 = 0 then 2 * (c19k_nodeNoise k ν lam o).getD (2^(k-lam) * (u / 2)) 0
+       else 2 * (c19k_nodeNoise k ν lam (o + 2^lam)).getD (2^(k-lam) * (u / 2)) 0)
+      + (ν lam o).getD (2^(k-(lam+1)) * u) 0 := by
+  have hw := c19_pow_split k (lam+1) hlam
+  have hlt : 2^(k-(lam+1)) * u < 2^k := by
+    rw [← hw]; exact Nat.mul_lt_mul_of_pos_left hu (Nat.two_pow_pos _)
+  have hkk : 2^(k-lam) = 2^(k-(lam+1)) * 2 := by
+    rw [← pow_succ]; congr 1; omega
+  show (addPoly (2^k) (packMerge k lam _ _) _).getD _ 0 = _
+  rw [c19_addPoly_getD _ _ _ _ hlt, c19_packMerge_at_mult k lam hlam _ _ u hu]
+  by_cases hev : u % 2 = 0
+  · have e1 : 2^(k-(lam+1)) * u = 2^(k-lam) * (u / 2) := by
+      rw [hkk, Nat.mul_assoc]; congr 1; omega
+    rw [if_pos hev, if_pos hev, ← e1]
+  · have e1 : 2^(k-(lam+1)) * (u - 1) = 2^(k-lam) * (u / 2) := by
+      rw [hkk, Nat.mul_assoc]; congr 1; omega
+    rw [if_neg hev, if_neg hev, e1]
+
+/-- EXPLICIT BOUND for the merge tree, at the coefficients later layers read (the multiples of N/2^lam): every merge doubles the
+    incoming noise and adds its own, P·|Z_{lam,o}[(N/2^lam)·u]| ≤ (2^lam − 1)·D -/
+theorem c19k_nodeNoise_bound (k : Nat) (ν : Nat → Nat → Array Int) (P D : Nat) (lam : Nat) (hlam : lam ≤ k)
+    (h : ∀ i, i < lam → ∀ o c, c < 2^k → ((ν i o).getD c 0).natAbs * P ≤ D) :
+    ∀ o u, u < 2^lam → ((c19k_nodeNoise k ν lam o).getD (2^(k-lam) * u) 0).natAbs * P ≤ (2^lam - 1) * D := by
+  induction lam with
+  | zero =>
+    intro o u _
+    have : (c19k_nodeNoise k ν 0 o).getD (2^(k-0) * u) 0 = 0 := c19_getD_replicate _ _ _
+    rw [this]; simp
+  | succ lam ih =>
+    intro o u hu
+    have ih' := ih (by omega) (fun i hi => h i (by omega))
+    have hw := c19_pow_split k (lam+1) hlam
+    have hlt : 2^(k-(lam+1)) * u < 2^k := by
+      rw [← hw]; exact Nat.mul_lt_mul_of_pos_left hu (Nat.two_pow_pos _)
+    have hu2 : u / 2 < 2^lam := by rw [pow_succ] at hu; omega
+    rw [c19k_nodeNoise_at k ν lam hlam o u hu]
+    have h3 := h lam (by omega) o _ hlt
+    obtain ⟨p, hp⟩ : ∃ p, 2^lam = p + 1 := ⟨2^lam - 1, by have := Nat.two_pow_pos lam; omega⟩
+    have e1 : 2^lam - 1 = p := by omega
+    have e2 : 2^(lam+1) - 1 = 2 * p + 1 := by rw [pow_succ]; omega
+    rw [e2]
+    have key : ∀ z : Int, z.natAbs * P ≤ p * D →
+        (2 * z + (ν lam o).getD (2^(k-(lam+1)) * u) 0).natAbs * P ≤ (2 * p + 1) * D := by
+      intro z hz
+      have habs : (2 * z + (ν lam o).getD (2^(k-(lam+1)) * u) 0).natAbs
+          ≤ 2 * z.natAbs + ((ν lam o).getD (2^(k-(lam+1)) * u) 0).natAbs := by
+        refine (Int.natAbs_add_le _ _).trans ?_
+        rw [Int.natAbs_mul]; rfl
+      calc _ ≤ (2 * z.natAbs + ((ν lam o).getD (2^(k-(lam+1)) * u) 0).natAbs) * P := Nat.mul_le_mul_right _ habs
+        _ = 2 * (z.natAbs * P) + ((ν lam o).getD (2^(k-(lam+1)) * u) 0).natAbs * P := by ring
+        _ ≤ 2 * (p * D) + D := by omega
+        _ = (2 * p + 1) * D := by ring
+    split
+    · exact key _ (by have := ih' o (u / 2) hu2; rwa [e1] at this)
+    · exact key _ (by have := ih' (o + 2^lam) (u / 2) hu2; rwa [e1] at this)
+
+/-- BGV: divisibility by t at the same coefficients -/
+theorem c19k_nodeNoise_dvd (k : Nat) (ν : Nat → Nat → Array Int) (t : Int) (lam : Nat) (hlam : lam ≤ k)
+    (h : ∀ i, i < lam → ∀ o c, c < 2^k → t ∣ (ν i o).getD c 0) :
+    ∀ o u, u < 2^lam → t ∣ (c19k_nodeNoise k ν lam o).getD (2^(k-lam) * u) 0 := by
+  induction lam with
+  | zero =>
+    intro o u _
+    have : (c19k_nodeNoise k ν 0 o).getD (2^(k-0) * u) 0 = 0 := c19_getD_replicate _ _ _
+    rw [this]; exact dvd_zero _
+  | succ lam ih =>
+    intro o u hu
+    have ih' := ih (by omega) (fun i hi => h i (by omega))
+    have hw := c19_pow_split k (lam+1) hlam
+    have hlt : 2^(k-(lam+1)) * u < 2^k := by
+      rw [← hw]; exact Nat.mul_lt_mul_of_pos_left hu (Nat.two_pow_pos _)
+    have hu2 : u / 2 < 2^lam := by rw [pow_succ] at hu; omega
+    rw [c19k_nodeNoise_at k ν lam hlam o u hu]
+    refine dvd_add ?_ (h lam (by omega) o _ hlt)
+    split
+    · exact Dvd.dvd.mul_left (ih' o (u / 2) hu2) 2
+    · exact Dvd.dvd.mul_left (ih' (o + 2^lam) (u / 2) hu2) 2
+
+
+/-! ## L2 on the model: the monomial shift of a ciphertext, the butterfly -/
+
+/-- `polymod::negacyclic_shift_ps(ct.data(), shift, ct.size(), N, modulus, out)`: every component of every polynomial shifted
+    (coefficient form) -/
+def c19k_shiftCt (l : Level) (ct : Ct) (sh : Nat) : Ct :=
+  { ct with polys := ct.polys.map fun p => Array.ofFn (n := l.size) fun i => negacyclicShift (p.getD i.val #[]) sh (l.q i.val) }
+
+theorem c19k_negQ_lt (q x : Nat) (hx : x < q) : c19_negQ q x < q := by
+  unfold c19_negQ; split <;> omega
+
+theorem c19k_negQ_int (q x : Nat) (hx : x ≤ q) : ((c19_negQ q x : Nat) : Int) ≡ - (x : Int) [ZMOD (q : Int)] := by
+  unfold c19_negQ
+  split
+  · next h => subst h; simp
+  · rw [Nat.cast_sub hx]
+    have : ((q : Int) - x) = - (x : Int) + q := by ring
+    rw [this]
+    exact Int.add_modEq_right
+
+/-- value level: the shifted component is canonical and, as integers modulo q, is `shiftPoly` of the component -/
+theorem c19k_shift_comp (a : Array Nat) (sh : Nat) (m : Modulus) (hcan : ∀ i, i < a.size → a.getD i 0 < m.value)
+    (f : Nat → Int) (hf : ∀ i, i < a.size → f i = ((a.getD i 0 : Nat) : Int)) (c : Nat) (hc : c < a.size) :
+    (negacyclicShift a sh m).getD c 0 < m.value ∧
+    (((negacyclicShift a sh m).getD c 0 : Nat) : Int) ≡
+      (shiftPoly a.size (Array.ofFn (n := a.size) fun i => f i.val) sh).getD c 0 [ZMOD (m.value : Int)] := by
+  have hn : 0 < a.size := by omega
+  have hr : sh % a.size < a.size := Nat.mod_lt _ hn
+  have hg : ∀ i, i < a.size → (Array.ofFn (n := a.size) fun i => f i.val).getD i 0 = ((a.getD i 0 : Nat) : Int) :=
+    fun i hi => by rw [c19_getD_ofFn _ _ _ hi]; exact hf i hi
+  rw [c19_shift_coeff_rule a sh m c hc, c19_shiftPoly_getD _ _ _ _ hc]
+  by_cases hle : sh % a.size ≤ c
+  · have hi : c - sh % a.size < a.size := by omega
+    rw [if_pos hle, if_pos hle, hg _ hi]
+    by_cases hp : sh / a.size % 2 = 1
+    · rw [if_pos hp, if_pos hp]
+      exact ⟨c19k_negQ_lt _ _ (hcan _ hi), c19k_negQ_int _ _ (le_of_lt (hcan _ hi))⟩
+    · rw [if_neg hp, if_neg hp]
+      exact ⟨hcan _ hi, Int.ModEq.refl _⟩
+  · have hi : c + a.size - sh % a.size < a.size := by omega
+    rw [if_neg hle, if_neg hle, hg _ hi]
+    by_cases hp : sh / a.size % 2 = 1
+    · rw [if_pos hp, if_pos hp]
+      exact ⟨hcan _ hi, Int.ModEq.refl _⟩
+    · rw [if_neg hp, if_neg hp]
+      exact ⟨c19k_negQ_lt _ _ (hcan _ hi), c19k_negQ_int _ _ (le_of_lt (hcan _ hi))⟩
+
+/-- the monomial shift commutes with the negacyclic product: (X^sh·a1) ⋆ s = X^sh·(a1 ⋆ s) -/
+theorem c19k_shift_negMul (n : Nat) (hn : 0 < n) (sh : Nat) (a1 s : Nat → Int) (c : Nat) (hc : c < n) :
+    negMulR n (fun i => (shiftPoly n (Array.ofFn (n := n) fun i => a1 i.val) sh).getD i 0) s c =
+      (shiftPoly n (Array.ofFn (n := n) fun i => negMulR n a1 s i.val) sh).getD c 0 := by
+  have h1 : negMulR n (fun i => (shiftPoly n (Array.ofFn (n := n) fun i => a1 i.val) sh).getD i 0) s c
+      = negMulR n (negMulR n a1 (c19_mono n sh)) s c := by
+    apply c05u_negMul_congr
+    intro i hi
+    rw [c19_shift_is_mul n hn _ sh i hi]
+    apply c05u_negMul_congr
+    intro j hj
+    rw [c19_getD_ofFn _ _ _ hj]
+  have h2 : (shiftPoly n (Array.ofFn (n := n) fun i => negMulR n a1 s i.val) sh).getD c 0
+      = negMulR n (negMulR n a1 s) (c19_mono n sh) c := by
+    rw [c19_shift_is_mul n hn _ sh c hc]
+    apply c05u_negMul_congr
+    intro j hj
+    rw [c19_getD_ofFn _ _ _ hj]
+  rw [h1, h2, c04k_assoc n _ _ _ hc, c04k_assoc n _ _ _ hc]
+  exact c04k_congr_right n _ _ _ hc (fun i hi => c04k_comm n _ _ hi)
+
+/-- hence the phase of the shifted pair is the shifted phase -/
+theorem c19k_shift_phase2 (n : Nat) (hn : 0 < n) (sh : Nat) (a0 a1 s : Nat → Int) (c : Nat) (hc : c < n) :
+    (shiftPoly n (Array.ofFn (n := n) fun i => a0 i.val) sh).getD c 0
+      + negMulR n (fun i => (shiftPoly n (Array.ofFn (n := n) fun i => a1 i.val) sh).getD i 0) s c
+    = (shiftPoly n (Array.ofFn (n := n) fun i => c05u_phase2 n a0 a1 s i.val) sh).getD c 0 := by
+  rw [c19k_shift_negMul n hn sh a1 s c hc]
+  obtain ⟨i, hi, neg, hperm⟩ := c19k_shiftPoly_perm n sh c hc
+  rw [hperm, hperm, hperm, c19_getD_ofFn _ _ _ hi, c19_getD_ofFn _ _ _ hi, c19_getD_ofFn _ _ _ hi]
+  unfold c05u_phase2
+  cases neg with
+  | true => simp; ring
+  | false => simp
+
+
+theorem c19k_shift_comp' (a : Array Nat) (n : Nat) (hs : a.size = n) (sh : Nat) (m : Modulus)
+    (hcan : ∀ i, i < n → a.getD i 0 < m.value)
+    (f : Nat → Int) (hf : ∀ i, i < n → f i = ((a.getD i 0 : Nat) : Int)) (c : Nat) (hc : c < n) :
+    (negacyclicShift a sh m).getD c 0 < m.value ∧
+    (((negacyclicShift a sh m).getD c 0 : Nat) : Int) ≡
+      (shiftPoly n (Array.ofFn (n := n) fun i => f i.val) sh).getD c 0 [ZMOD (m.value : Int)] := by
+  subst hs
+  exact c19k_shift_comp a sh m hcan f hf c hc
+
+theorem c19k_map_getD {α β : Type} (a : Array α) (f : α → β) (k : Nat) (hk : k < a.size) (d : α) (d' : β) :
+    (a.map f).getD k d' = f (a.getD k d) := by
+  simp [Array.getD, hk]
+
+theorem c19k_polyI_coeff (t : NTTTables) (p : Poly) (c : Nat) : c04k_polyI t false p c = ((p.getD c 0 : Nat) : Int) := by
+  unfold c04k_polyI c04t_coefOf; simp
+
+theorem c19k_shiftCt_poly (l : Level) (ct : Ct) (sh k j : Nat) (hk : k < ct.polys.size) (hj : j < l.size) :
+    ((c19k_shiftCt l ct sh).polys.getD k #[]).getD j #[] = negacyclicShift ((ct.polys.getD k #[]).getD j #[]) sh (l.q j) := by
+  unfold c19k_shiftCt
+  show ((ct.polys.map _).getD k #[]).getD j #[] = _
+  rw [c19k_map_getD _ _ _ hk #[] #[], c19_getD_ofFn _ _ _ hj]
+
+/-- the monomial shift of a canonical coefficient-form ciphertext: canonical, and the phase is shifted -/
+theorem c19k_shiftCt_spec {kl : KeyLevel} {l : Level} (hl : c04k_LevelOf kl l) {ct : Ct} (hct : c19k_CtOK l ct)
+    (hntt : ct.ntt = false) (sh : Nat) (s : Nat → Int) :
+    c19k_CtOK l (c19k_shiftCt l ct sh) ∧ (c19k_shiftCt l ct sh).ntt = false ∧ (c19k_shiftCt l ct sh).cf = ct.cf ∧
+    ∀ j, j < l.size → ∀ c, c < 2^l.k →
+      (c19k_phase kl j (c19k_shiftCt l ct sh) s).getD c 0 ≡ (shiftPoly (2^l.k) (c19k_phase kl j ct s) sh).getD c 0
+        [ZMOD ((kl.m j).value : Int)] := by
+  have hsz : (c19k_shiftCt l ct sh).polys.size = 2 := by unfold c19k_shiftCt; simp [hct.1]
+  have hcomp : ∀ k, k < 2 → ∀ j, j < l.size → ∀ c, c < kl.n →
+      (((c19k_shiftCt l ct sh).polys.getD k #[]).getD j #[]).getD c 0 < (kl.m j).value ∧
+      ((((((c19k_shiftCt l ct sh).polys.getD k #[]).getD j #[]).getD c 0 : Nat)) : Int) ≡
+        (shiftPoly kl.n (Array.ofFn (n := kl.n) fun i =>
+          c04k_polyI (kl.tb j) false ((ct.polys.getD k #[]).getD j #[]) i.val) sh).getD c 0 [ZMOD ((kl.m j).value : Int)] := by
+    intro k hk j hj c hc
+    have hA := c19k_canon_of_rns hl (hct.2 k hk) j hj
+    rw [c19k_shiftCt_poly l ct sh k j (by rw [hct.1]; exact hk) hj, hl.q j hj]
+    exact c19k_shift_comp' _ kl.n hA.1 sh (kl.m j) hA.2 _ (fun i _ => c19k_polyI_coeff _ _ i) c hc
+  refine ⟨⟨hsz, fun k hk => ⟨?_, fun j hj => ⟨?_, fun c hc => ?_⟩⟩⟩, hntt, rfl, fun j hj c hc => ?_⟩
+  · unfold c19k_shiftCt
+    show ((ct.polys.map _).getD k #[]).size = _
+    rw [c19k_map_getD _ _ _ (by rw [hct.1]; exact hk) #[] #[]]; simp
+  · rw [c19k_shiftCt_poly l ct sh k j (by rw [hct.1]; exact hk) hj, c19_negacyclicShift_size]
+    exact ((hct.2 k hk).2 j hj).1
+  · rw [hl.q j hj]; exact (hcomp k hk j hj c (by rw [← hl.n]; exact hc)).1
+  · rw [hl.k] at hc ⊢
+    rw [c19k_phase_getD _ _ _ _ _ hc]
+    have hn0 : 0 < kl.n := by omega
+    have e : (c19k_shiftCt l ct sh).ntt = false := hntt
+    rw [e]
+    unfold c05u_phase2
+    have hp : ∀ k, k < 2 → ∀ i, i < kl.n →
+        c04k_polyI (kl.tb j) false (((c19k_shiftCt l ct sh).polys.getD k #[]).getD j #[]) i ≡
+          (shiftPoly kl.n (Array.ofFn (n := kl.n) fun i =>
+            c04k_polyI (kl.tb j) false ((ct.polys.getD k #[]).getD j #[]) i.val) sh).getD i 0 [ZMOD ((kl.m j).value : Int)] := by
+      intro k hk i hi
+      rw [c19k_polyI_coeff]; exact (hcomp k hk j hj i hi).2
+    have h1 := c04k_negMul_modEq kl.n ((kl.m j).value : Int) hc
+      (a := c04k_polyI (kl.tb j) false (((c19k_shiftCt l ct sh).polys.getD 1 #[]).getD j #[]))
+      (a' := fun i => (shiftPoly kl.n (Array.ofFn (n := kl.n) fun i =>
+            c04k_polyI (kl.tb j) false ((ct.polys.getD 1 #[]).getD j #[]) i.val) sh).getD i 0)
+      (b := s) (b' := s)
+      (fun i hi => hp 1 (by omega) i hi) (fun i _ => Int.ModEq.refl (s i))
+    have := (hp 0 (by omega) c hc).add h1
+    rw [c19k_shift_phase2 kl.n hn0 sh _ _ s c hc] at this
+    have e2 : c19k_phase kl j ct s = Array.ofFn (n := kl.n) fun i =>
+        c05u_phase2 kl.n (c04k_polyI (kl.tb j) false ((ct.polys.getD 0 #[]).getD j #[]))
+          (c04k_polyI (kl.tb j) false ((ct.polys.getD 1 #[]).getD j #[])) s i.val := by
+      unfold c19k_phase; rw [hntt]
+    rw [e2]
+    exact this
+
+
+/-- `transform_to_ntt_inplace` / `transform_from_ntt_inplace` on a ciphertext -/
+def c19k_toNtt (l : Level) (ct : Ct) : Ct := { ct with polys := ct.polys.map (rnsNtt l), ntt := true }
+def c19k_fromNtt (l : Level) (ct : Ct) : Ct := { ct with polys := ct.polys.map (rnsIntt l), ntt := false }
+
+/-- the level's NTT tables are the key level's tables of the same primes -/
+def c19k_TablesOf (kl : KeyLevel) (l : Level) : Prop := ∀ j, j < l.size → l.tbl j = kl.tb j
+
+theorem c19k_toNtt_poly (l : Level) (ct : Ct) (k j : Nat) (hk : k < ct.polys.size) (hj : j < l.size) :
+    ((c19k_toNtt l ct).polys.getD k #[]).getD j #[] = ntt (l.tbl j) ((ct.polys.getD k #[]).getD j #[]) := by
+  unfold c19k_toNtt
+  show ((ct.polys.map _).getD k #[]).getD j #[] = _
+  rw [c19k_map_getD _ _ _ hk #[] #[]]
+  unfold rnsNtt
+  rw [c19_getD_ofFn _ _ _ hj]
+
+theorem c19k_fromNtt_poly (l : Level) (ct : Ct) (k j : Nat) (hk : k < ct.polys.size) (hj : j < l.size) :
+    ((c19k_fromNtt l ct).polys.getD k #[]).getD j #[] = intt (l.tbl j) ((ct.polys.getD k #[]).getD j #[]) := by
+  unfold c19k_fromNtt
+  show ((ct.polys.map _).getD k #[]).getD j #[] = _
+  rw [c19k_map_getD _ _ _ hk #[] #[]]
+  unfold rnsIntt
+  rw [c19_getD_ofFn _ _ _ hj]
+
+theorem c19k_toNtt_spec {kl : KeyLevel} {l : Level} (hl : c04k_LevelOf kl l) (hkl : kl.WF) (hd : l.size + 1 ≤ kl.ms.size)
+    (hT : c19k_TablesOf kl l) {ct : Ct} (hct : c19k_CtOK l ct) (hntt : ct.ntt = false) (s : Nat → Int) :
+    c19k_CtOK l (c19k_toNtt l ct) ∧ (c19k_toNtt l ct).ntt = true ∧ (c19k_toNtt l ct).cf = ct.cf ∧
+    ∀ j, j < l.size → ∀ c, c < 2^l.k → (c19k_phase kl j (c19k_toNtt l ct) s).getD c 0 = (c19k_phase kl j ct s).getD c 0 := by
+  have hsz : (c19k_toNtt l ct).polys.size = 2 := by unfold c19k_toNtt; simp [hct.1]
+  have hfacts : ∀ k, k < 2 → ∀ j, j < l.size →
+      (((c19k_toNtt l ct).polys.getD k #[]).getD j #[]) = ntt (kl.tb j) ((ct.polys.getD k #[]).getD j #[]) ∧
+      ((ct.polys.getD k #[]).getD j #[]).size = 2^(kl.tb j).k ∧
+      ∀ i, i < 2^(kl.tb j).k → ((ct.polys.getD k #[]).getD j #[]).getD i 0 < (kl.tb j).modulus.value := by
+    intro k hk j hj
+    obtain ⟨htw, htm, htn, hmw⟩ := c04t_kl_comp hkl (show j < kl.ms.size by omega)
+    have hA := c19k_canon_of_rns hl (hct.2 k hk) j hj
+    refine ⟨by rw [c19k_toNtt_poly l ct k j (by rw [hct.1]; exact hk) hj, hT j hj], by rw [hA.1, htn], fun i hi => ?_⟩
+    rw [htm]; exact hA.2 i (by rw [← htn]; exact hi)
+  refine ⟨⟨hsz, fun k hk => ⟨?_, fun j hj => ?_⟩⟩, rfl, rfl, fun j hj c hc => ?_⟩
+  · unfold c19k_toNtt
+    show ((ct.polys.map _).getD k #[]).size = _
+    rw [c19k_map_getD _ _ _ (by rw [hct.1]; exact hk) #[] #[]]; simp [rnsNtt]
+  · obtain ⟨htw, htm, htn, hmw⟩ := c04t_kl_comp hkl (show j < kl.ms.size by omega)
+    obtain ⟨e1, e2, e3⟩ := hfacts k hk j hj
+    obtain ⟨f1, f2⟩ := ntt_sim htw _ e2 (fun i hi => by have := e3 i hi; omega)
+    rw [e1, hl.q j hj, hl.n]
+    refine ⟨by rw [f1, htn], fun i hi => ?_⟩
+    rw [← htm]; exact (f2 i (by rw [htn]; exact hi)).2.1
+  · obtain ⟨htw, htm, htn, hmw⟩ := c04t_kl_comp hkl (show j < kl.ms.size by omega)
+    have hc' : c < kl.n := by rw [← hl.k]; exact hc
+    rw [c19k_phase_getD _ _ _ _ _ hc', c19k_phase_getD _ _ _ _ _ hc']
+    have e : (c19k_toNtt l ct).ntt = true := rfl
+    have hp : ∀ k, k < 2 → c04k_polyI (kl.tb j) true (((c19k_toNtt l ct).polys.getD k #[]).getD j #[])
+        = c04k_polyI (kl.tb j) false ((ct.polys.getD k #[]).getD j #[]) := by
+      intro k hk
+      obtain ⟨e1, e2, e3⟩ := hfacts k hk j hj
+      funext x
+      unfold c04k_polyI c04t_coefOf
+      simp only [if_true, Bool.false_eq_true, if_false]
+      rw [e1, intt_ntt htw _ e2 e3]
+    rw [e, hntt, hp 0 (by omega), hp 1 (by omega)]
+
+theorem c19k_fromNtt_spec {kl : KeyLevel} {l : Level} (hl : c04k_LevelOf kl l) (hkl : kl.WF) (hd : l.size + 1 ≤ kl.ms.size)
+    (hT : c19k_TablesOf kl l) {ct : Ct} (hct : c19k_CtOK l ct) (hntt : ct.ntt = true) (s : Nat → Int) :
+    c19k_CtOK l (c19k_fromNtt l ct) ∧ (c19k_fromNtt l ct).ntt = false ∧ (c19k_fromNtt l ct).cf = ct.cf ∧
+    ∀ j, j < l.size → ∀ c, c < 2^l.k → (c19k_phase kl j (c19k_fromNtt l ct) s).getD c 0 = (c19k_phase kl j ct s).getD c 0 := by
+  have hsz : (c19k_fromNtt l ct).polys.size = 2 := by unfold c19k_fromNtt; simp [hct.1]
+  have hpoly : ∀ k, k < 2 → ∀ j, j < l.size →
+      (((c19k_fromNtt l ct).polys.getD k #[]).getD j #[]) = intt (kl.tb j) ((ct.polys.getD k #[]).getD j #[]) := by
+    intro k hk j hj
+    rw [c19k_fromNtt_poly l ct k j (by rw [hct.1]; exact hk) hj, hT j hj]
+  refine ⟨⟨hsz, fun k hk => ⟨?_, fun j hj => ?_⟩⟩, rfl, rfl, fun j hj c hc => ?_⟩
+  · unfold c19k_fromNtt
+    show ((ct.polys.map _).getD k #[]).size = _
+    rw [c19k_map_getD _ _ _ (by rw [hct.1]; exact hk) #[] #[]]; simp [rnsIntt]
+  · obtain ⟨htw, htm, htn, hmw⟩ := c04t_kl_comp hkl (show j < kl.ms.size by omega)
+    have hA := c19k_canon_of_rns hl (hct.2 k hk) j hj
+    obtain ⟨f1, f2⟩ := intt_sim htw ((ct.polys.getD k #[]).getD j #[]) (by rw [hA.1, htn])
+      (fun i hi => by rw [htm]; have := hA.2 i (by rw [← htn]; exact hi); omega)
+    rw [hpoly k hk j hj, hl.q j hj, hl.n]
+    refine ⟨by rw [f1, htn], fun i hi => ?_⟩
+    rw [← htm]; exact (f2 i (by rw [htn]; exact hi)).1
+  · have hc' : c < kl.n := by rw [← hl.k]; exact hc
+    rw [c19k_phase_getD _ _ _ _ _ hc', c19k_phase_getD _ _ _ _ _ hc']
+    have e : (c19k_fromNtt l ct).ntt = false := rfl
+    have hp : ∀ k, k < 2 → c04k_polyI (kl.tb j) false (((c19k_fromNtt l ct).polys.getD k #[]).getD j #[])
+        = c04k_polyI (kl.tb j) true ((ct.polys.getD k #[]).getD j #[]) := by
+      intro k hk
+      funext x
+      unfold c04k_polyI c04t_coefOf
+      simp only [if_true, Bool.false_eq_true, if_false]
+      rw [hpoly k hk j hj]
+    rw [e, hntt, hp 0 (by omega), hp 1 (by omega)]
+
+
+/-- one butterfly of `pack_lwe_ciphertexts` on the model, operands in coefficient form (as the loop keeps them):
+    `temp = X^shift·odd; odd = even − temp; even += temp; [to NTT unless BFV]; apply_galois_inplace(odd, 2^(layer+1)+1);
+     [from NTT]; even += odd`; the value is the new `even`. -/
+def c19k_mergeCt (kl : KeyLevel) (l : Level) (scheme : Scheme) (lam : Nat) (key : KSKey) (even odd : Ct) : R Ct := do
+  let temp := c19k_shiftCt l odd (l.n / 2^(lam+1))
+  let odd1 ← ctTranslateBalanced l even temp true
+  let even1 ← ctTranslateBalanced l even temp false
+  let odd2 := if scheme = .bfv then odd1 else c19k_toNtt l odd1
+  let odd3 ← applyGalois kl l scheme odd2 (2^(lam+1) + 1) key
+  let odd4 := if scheme = .bfv then odd3 else c19k_fromNtt l odd3
+  ctTranslateBalanced l even1 odd4 false
+
+/-- what `applyGalois` does to a canonical ciphertext, in array form: phase ≡ σ_g(phase) + ν -/
+def c19k_GaloisSpec (kl : KeyLevel) (l : Level) (ct t : Ct) (g : Nat) (s : Nat → Int) (ν : Array Int) : Prop :=
+  c19k_CtOK l t ∧ t.ntt = ct.ntt ∧ t.cf = ct.cf ∧
+    ∀ j, j < l.size → ∀ c, c < 2^l.k →
+      (c19k_phase kl j t s).getD c 0 ≡ (sigmaPoly (2^l.k) (c19k_phase kl j ct s) g).getD c 0 + ν.getD c 0
+        [ZMOD ((kl.m j).value : Int)]
+
+theorem c19k_galois_of {kl : KeyLevel} {l : Level} (hl : c04k_LevelOf kl l)
+    {scheme : Scheme} {ct : Ct} {key : KSKey} {g : Nat} (hg : g % 2 = 1) {s : Nat → Int} {ν : Nat → Int}
+    (h : ∃ ct', applyGalois kl l scheme ct g key = .ok ct' ∧ ct'.ntt = ct.ntt ∧ ct'.cf = ct.cf ∧ ct'.polys.size = 2 ∧
+      (∀ k, k < 2 → (ct'.polys.getD k #[]).size = l.size ∧ c04t_Canon kl l.size (ct'.polys.getD k #[])) ∧
+      ∀ j, j < l.size → ∀ c, c < kl.n →
+        c05u_phase2 kl.n (c04k_polyI (kl.tb j) ct.ntt ((ct'.polys.getD 0 #[]).getD j #[]))
+            (c04k_polyI (kl.tb j) ct.ntt ((ct'.polys.getD 1 #[]).getD j #[])) s c
+          ≡ c04k_sigma kl.n g (c05u_phase2 kl.n (c04k_polyI (kl.tb j) ct.ntt ((ct.polys.getD 0 #[]).getD j #[]))
+              (c04k_polyI (kl.tb j) ct.ntt ((ct.polys.getD 1 #[]).getD j #[])) s) c
+            + ν c [ZMOD ((kl.m j).value : Int)]) :
+    ∃ t, applyGalois kl l scheme ct g key = .ok t ∧
+      c19k_GaloisSpec kl l ct t g s (Array.ofFn (n := kl.n) fun c => ν c.val) := by
+  obtain ⟨t, ht, htn, htcf, hts, htc, htph⟩ := h
+  refine ⟨t, ht, ⟨hts, fun k hk => c19k_rns_of_canon hl (htc k hk).1 (htc k hk).2⟩, htn, htcf, fun j hj c hc => ?_⟩
+  have hc' : c < kl.n := by rw [← hl.k]; exact hc
+  rw [c19_getD_ofFn _ _ _ hc']
+  rw [c19k_sigma_fn kl.n l.k g hl.k hg _ _ (fun i hi => c19k_phase_getD kl j ct s i hi) c hc']
+  have h2 := htph j hj c hc'
+  have e := c19k_phase_getD kl j t s c hc'
+  rw [htn] at e
+  rw [← e] at h2
+  exact h2
+
+/-- the butterfly, generically in the Galois step -/
+theorem c19k_merge_generic {kl : KeyLevel} {l : Level} (hl : c04k_LevelOf kl l) (hkl : kl.WF) (hd : l.size + 1 ≤ kl.ms.size)
+    {scheme : Scheme} (hT : scheme ≠ .bfv → c19k_TablesOf kl l) {key : KSKey} {even odd : Ct}
+    (he : c19k_CtOK l even) (ho : c19k_CtOK l odd) (hen : even.ntt = false) (hon : odd.ntt = false) (hcf : even.cf = odd.cf)
+    (lam : Nat) (s : Nat → Int) (ν : Ct → Array Int)
+    (hgal : ∀ x, c19k_CtOK l x → x.ntt = (if scheme = .bfv then false else true) →
+      ∃ t, applyGalois kl l scheme x (2^(lam+1) + 1) key = .ok t ∧ c19k_GaloisSpec kl l x t (2^(lam+1) + 1) s (ν x)) :
+    ∃ r x, c19k_mergeCt kl l scheme lam key even odd = .ok r ∧ c19k_CtOK l r ∧ r.ntt = false ∧ r.cf = even.cf ∧
+      (∃ odd1, ctTranslateBalanced l even (c19k_shiftCt l odd (l.n / 2^(lam+1))) true = .ok odd1 ∧
+        x = if scheme = .bfv then odd1 else c19k_toNtt l odd1) ∧
+      ∀ j, j < l.size → ∀ c, c < 2^l.k →
+        (c19k_phase kl j r s).getD c 0 ≡
+          (packMerge l.k lam (c19k_phase kl j even s) (c19k_phase kl j odd s)).getD c 0 + (ν x).getD c 0
+            [ZMOD ((kl.m j).value : Int)] := by
+  have hln : l.n = 2^l.k := by rw [hl.n, hl.k]
+  obtain ⟨htok, htn, htcf, htph⟩ := c19k_shiftCt_spec hl ho hon (l.n / 2^(lam+1)) s
+  set temp := c19k_shiftCt l odd (l.n / 2^(lam+1)) with htemp
+  obtain ⟨odd1, h1, h1ok, h1n, h1f, h1ph⟩ :=
+    c19k_translate_phase hl hkl hd he htok (by rw [hen, htn]) (by rw [htcf, hcf]) true s
+  obtain ⟨even1, h2, h2ok, h2n, h2f, h2ph⟩ :=
+    c19k_translate_phase hl hkl hd he htok (by rw [hen, htn]) (by rw [htcf, hcf]) false s
+  simp only [if_true] at h1ph
+  simp only [Bool.false_eq_true, if_false] at h2ph
+  -- the Galois input
+  obtain ⟨x, hx, hxok, hxn, hxf, hxph⟩ : ∃ x, x = (if scheme = .bfv then odd1 else c19k_toNtt l odd1) ∧ c19k_CtOK l x ∧
+      x.ntt = (if scheme = .bfv then false else true) ∧ x.cf = even.cf ∧
+      ∀ j, j < l.size → ∀ c, c < 2^l.k → (c19k_phase kl j x s).getD c 0 = (c19k_phase kl j odd1 s).getD c 0 := by
+    by_cases hs : scheme = .bfv
+    · exact ⟨odd1, by rw [if_pos hs], h1ok, by rw [if_pos hs, h1n, hen], h1f, fun _ _ _ _ => rfl⟩
+    · obtain ⟨a1, a2, a3, a4⟩ := c19k_toNtt_spec hl hkl hd (hT hs) h1ok (by rw [h1n, hen]) s
+      exact ⟨c19k_toNtt l odd1, by rw [if_neg hs], a1, by rw [if_neg hs]; exact a2, by rw [a3, h1f], a4⟩
+  obtain ⟨t, ht, htok', htn', htf', htph'⟩ := hgal x hxok hxn
+  -- back to coefficient form
+  obtain ⟨y, hy, hyok, hyn, hyf, hyph⟩ : ∃ y, y = (if scheme = .bfv then t else c19k_fromNtt l t) ∧ c19k_CtOK l y ∧
+      y.ntt = false ∧ y.cf = even.cf ∧
+      ∀ j, j < l.size → ∀ c, c < 2^l.k → (c19k_phase kl j y s).getD c 0 = (c19k_phase kl j t s).getD c 0 := by
+    by_cases hs : scheme = .bfv
+    · exact ⟨t, by rw [if_pos hs], htok', by rw [htn', hxn, if_pos hs], by rw [htf', hxf], fun _ _ _ _ => rfl⟩
+    · obtain ⟨a1, a2, a3, a4⟩ := c19k_fromNtt_spec hl hkl hd (hT hs) htok' (by rw [htn', hxn, if_neg hs]) s
+      exact ⟨c19k_fromNtt l t, by rw [if_neg hs], a1, a2, by rw [a3, htf', hxf], a4⟩
+  obtain ⟨r, h3, h3ok, h3n, h3f, h3ph⟩ :=
+    c19k_translate_phase hl hkl hd h2ok hyok (by rw [h2n, hen, hyn]) (by rw [h2f, hyf]) false s
+  simp only [Bool.false_eq_true, if_false] at h3ph
+  refine ⟨r, x, ?_, h3ok, by rw [h3n, h2n, hen], by rw [h3f, h2f], ⟨odd1, h1, hx⟩, fun j hj c hc => ?_⟩
+  · unfold c19k_mergeCt
+    simp only [← htemp, h1, h2, bind, Except.bind, ← hx, ht, ← hy]
+    exact h3
+  · have hc' : c < kl.n := by rw [← hl.k]; exact hc
+    have hodd := c19k_odd_two_pow (lam+1) (by omega)
+    -- phase of the Galois output: σ(E − X^s O) + ν
+    have hsig : (sigmaPoly (2^l.k) (c19k_phase kl j x s) (2^(lam+1)+1)).getD c 0 ≡
+        (sigmaPoly (2^l.k) (subPoly (2^l.k) (c19k_phase kl j even s)
+          (shiftPoly (2^l.k) (c19k_phase kl j odd s) (2^l.k / 2^(lam+1)))) (2^(lam+1)+1)).getD c 0
+          [ZMOD ((kl.m j).value : Int)] := by
+      refine c19k_sigma_modEq l.k _ hodd _ _ _ (fun i hi => ?_) c hc
+      have hi' : i < kl.n := by rw [← hl.k]; exact hi
+      rw [hxph j hj i hi, c19_subPoly_getD _ _ _ _ hi]
+      refine (h1ph j hj i hi').trans ((Int.ModEq.refl _).sub ?_)
+      have := htph j hj i hi
+      rw [hln] at this
+      exact this
+    have hT1 := htph j hj c hc
+    rw [hln] at hT1
+    have hY : (c19k_phase kl j y s).getD c 0 ≡
+        (sigmaPoly (2^l.k) (subPoly (2^l.k) (c19k_phase kl j even s)
+          (shiftPoly (2^l.k) (c19k_phase kl j odd s) (2^l.k / 2^(lam+1)))) (2^(lam+1)+1)).getD c 0 + (ν x).getD c 0
+          [ZMOD ((kl.m j).value : Int)] := by
+      rw [hyph j hj c hc]; exact (htph' j hj c hc).trans (hsig.add (Int.ModEq.refl _))
+    have hfin := (h3ph j hj c hc').trans (((h2ph j hj c hc').trans ((Int.ModEq.refl _).add hT1)).add hY)
+    unfold packMerge
+    simp only
+    rw [c19_addPoly_getD _ _ _ _ hc, c19_addPoly_getD _ _ _ _ hc]
+    unfold Int.ModEq at hfin ⊢
+    rw [hfin]; congr 1; ring
+
+
+/-! ## L2 on the model: the merge tree -/
+
+def c19k_val (x : R Ct) : Ct := match x with | .ok c => c | .error _ => default
+
+/-- slot `o` after `lam` layers of the merge loop of `pack_lwe_ciphertexts`, as a recursion over the butterflies
+    (`merge lam even odd` = the new `even` of a butterfly of layer `lam`) -/
+def c19k_nodeCt (merge : Nat → Ct → Ct → R Ct) (leaves : Nat → R Ct) : Nat → Nat → R Ct
+  | 0, o => leaves o
+  | lam+1, o => do
+    let ev ← c19k_nodeCt merge leaves lam o
+    let od ← c19k_nodeCt merge leaves lam (o + 2^lam)
+    merge lam ev od
+
+/-- the noise of the butterfly producing slot o of layer lam+1, as a function of the computation -/
+def c19k_nodeNu (merge : Nat → Ct → Ct → R Ct) (leaves : Nat → R Ct) (νf : Nat → Ct → Ct → Array Int) (lam o : Nat) : Array Int :=
+  νf lam (c19k_val (c19k_nodeCt merge leaves lam o)) (c19k_val (c19k_nodeCt merge leaves lam (o + 2^lam)))
+
+/-- canonical coefficient-form two-polynomial ciphertext with correction factor f -/
+def c19k_CoefOK (l : Level) (f : Nat) (ct : Ct) : Prop := c19k_CtOK l ct ∧ ct.ntt = false ∧ ct.cf = f
+
+theorem c19k_tree_generic {kl : KeyLevel} {l : Level} {s : Nat → Int} (f : Nat)
+    (merge : Nat → Ct → Ct → R Ct) (leaves : Nat → R Ct) (νf : Nat → Ct → Ct → Array Int) (L : Nat)
+    (hleaves : ∀ o, ∃ ct, leaves o = .ok ct ∧ c19k_CoefOK l f ct)
+    (hmerge : ∀ lam, lam < L → ∀ ev od, c19k_CoefOK l f ev → c19k_CoefOK l f od →
+      ∃ r, merge lam ev od = .ok r ∧ c19k_CoefOK l f r ∧
+        ∀ j, j < l.size → ∀ c, c < 2^l.k →
+          (c19k_phase kl j r s).getD c 0 ≡
+            (packMerge l.k lam (c19k_phase kl j ev s) (c19k_phase kl j od s)).getD c 0 + (νf lam ev od).getD c 0
+              [ZMOD ((kl.m j).value : Int)]) :
+    ∀ lam, lam ≤ L → ∀ o, ∃ r, c19k_nodeCt merge leaves lam o = .ok r ∧ c19k_CoefOK l f r ∧
+      ∀ j, j < l.size → ∀ c, c < 2^l.k →
+        (c19k_phase kl j r s).getD c 0 ≡
+          (c19k_nodePoly l.k (fun i => c19k_phase kl j (c19k_val (leaves i)) s) lam o).getD c 0
+            + (c19k_nodeNoise l.k (c19k_nodeNu merge leaves νf) lam o).getD c 0 [ZMOD ((kl.m j).value : Int)] := by
+  intro lam
+  induction lam with
+  | zero =>
+    intro _ o
+    obtain ⟨ct, h1, h2⟩ := hleaves o
+    refine ⟨ct, h1, h2, fun j _ c _ => ?_⟩
+    have e : (c19k_nodeNoise l.k (c19k_nodeNu merge leaves νf) 0 o).getD c 0 = 0 := c19_getD_replicate _ _ _
+    have e2 : c19k_val (leaves o) = ct := by rw [h1]; rfl
+    show _ ≡ (c19k_phase kl j (c19k_val (leaves o)) s).getD c 0 + _ [ZMOD _]
+    rw [e, e2, add_zero]
+  | succ lam ih =>
+    intro hlam o
+    obtain ⟨ev, a1, a2, a3⟩ := ih (by omega) o
+    obtain ⟨od, b1, b2, b3⟩ := ih (by omega) (o + 2^lam)
+    obtain ⟨r, c1, c2, c3⟩ := hmerge lam (by omega) ev od a2 b2
+    refine ⟨r, ?_, c2, fun j hj => ?_⟩
+    · show (do let ev ← c19k_nodeCt merge leaves lam o; let od ← c19k_nodeCt merge leaves lam (o + 2^lam); merge lam ev od) = _
+      rw [a1, b1]; exact c1
+    · have hν : c19k_nodeNu merge leaves νf lam o = νf lam ev od := by
+        unfold c19k_nodeNu; rw [a1, b1]; rfl
+      have := c19k_merge_step l.k lam ((kl.m j).value : Int) _ _ _ _ _ _ _ _ (a3 j hj) (b3 j hj) (c3 j hj)
+      intro c hc
+      show _ ≡ (packMerge l.k lam _ _).getD c 0 + (addPoly (2^l.k) (packMerge l.k lam _ _) _).getD c 0 [ZMOD _]
+      rw [hν]
+      exact this c hc
+
 
 /-! ## non-vacuity: a genuine Galois key for g = 3 on the key level `c04t_exKL` (N = 2, q = 13, P = 17, t = 5)
 
